@@ -5,6 +5,7 @@ import Proofs.NoIdleGlobal
 import Proofs.NoIdleBack
 import Proofs.NoIdleAlt
 import Proofs.NoIdleBackAlt
+import Proofs.TeamBack
 import Proofs.TeamFit
 import Proofs.WFCheck
 /-!
@@ -286,6 +287,22 @@ theorem no_idle_final_alap_with_alternative (e : Env) (wf : WF e) (tr : Tree e) 
           e.onShift r i = true → e.leaveMark r i = false →
           ((runScenario e).led.get r i).usage ≠ [] ∨ Exhausted e (runScenario e) t r i :=
   (runScenario_doneIdleBAlt e wf tr t r1 r2 hel
+    (runScenario_scheduled_done e t ⟨hel.el.leaf, hel.el.effort, hel.el.nomile⟩ hs) hf).2
+
+/-- **C08 for unlimited ALAP teams** (`Proofs/TeamBack`): after scheduling ANY well-formed project, every backward team task
+    reported as scheduled — several pairwise different unlimited leaf resources, no limits on the task — ends no later than its
+    deadline (`deadlineG`), and between any slot `L` in which it is booked and the last slot before the deadline, every slot in
+    which ALL its members are on shift and not on leave carries the task on every member, or a booking on some member: the
+    team never ends earlier than it has to while all of its resources could still work for it. -/
+theorem no_idle_final_alap_team (e : Env) (wf : WF e) (tr : Tree e) (t : Nat) (sel : List Nat) (hel : TeamUB e t sel)
+    (hs : ((runScenario e).tst t).scheduled = true) (hf : ((runScenario e).tst t).forward = false) :
+    (∃ v, ((runScenario e).tst t).stop = some v ∧ v ≤ deadlineG e (loopStart e) (runScenario e) t) ∧
+    ∀ L m0, m0 ∈ sel → usageOf ((runScenario e).led.get m0 L).usage t ≠ none →
+      ∀ i, L ≤ i → i ≤ e.idx (deadlineG e (loopStart e) (runScenario e) t) - 1 →
+        (∀ m ∈ sel, e.onShift m i = true ∧ e.leaveMark m i = false) →
+        (∀ m ∈ sel, usageOf ((runScenario e).led.get m i).usage t ≠ none) ∨
+        ∃ m ∈ sel, ((runScenario e).led.get m i).usage ≠ [] :=
+  (runScenario_doneIdleBT e wf tr t sel hel
     (runScenario_scheduled_done e t ⟨hel.el.leaf, hel.el.effort, hel.el.nomile⟩ hs) hf).2
 
 end SP.C08
